@@ -576,7 +576,11 @@ impl Export {
             BothImpl(sub) | UnBothImpl(sub) => {
                 let reused = sub.side.map(|side| side.n.unwrap_or(1)).unwrap_or(0);
                 let n = sub.num.unwrap_or(2) as usize;
-                format!("(MBothImpl {reused} {n})")
+                if matches!(p, UnBothImpl(_)) {
+                    format!("(MUnBothImpl {reused} {n})")
+                } else {
+                    format!("(MBothImpl {reused} {n})")
+                }
             }
             // handled specially by the checker, not modelled: never give them a table signature
             Astar | AstarFirst | AstarSignLen | AstarTake | AstarPop | PathFirst | PathSignLen
@@ -803,9 +807,16 @@ impl PGen {
                     format!("⍜({f})({})", self.body(r, depth - 1, l))
                 }
             } else if k < 90 {
-                let m = *r.pick(&["⊙", "⋅", "⟜", "⊸", "⤙", "⤚", "◡", "∩", "⍩"]);
-                let l = 1 + r.below(3);
-                format!("{m}({})", self.body(r, depth - 1, l))
+                if r.chance(1, 10) {
+                    // un-both of an invertible function (ImplPrimitive::UnBothImpl): the runs go top group first
+                    let m = *r.pick(&["°∩", "°∩₃", "°∩"]);
+                    let f = *r.pick(&["+1", "×2", "¯", "-1", "+", "⊙(+1)"]);
+                    format!("{m}({f})")
+                } else {
+                    let m = *r.pick(&["⊙", "⋅", "⟜", "⊸", "⤙", "⤚", "◡", "∩", "⍩", "∩₃", "∩₄", "⟜₂", "⟜₃", "∩₁"]);
+                    let l = 1 + r.below(3);
+                    format!("{m}({})", self.body(r, depth - 1, l))
+                }
             } else if k < 92 {
                 // try with two handlers; a handler may take the error value (popped here)
                 let (l1, l2, l3) = (1 + r.below(3), 1 + r.below(3), 1 + r.below(3));
